@@ -351,6 +351,55 @@ def loosely_accepts(member: dict, J: Any, doc: dict) -> bool:
     return not fails_robustly(member, J, doc)
 
 
+def conforms(schema: dict | None, J: Any, doc: dict, depth: int = 0) -> bool:
+    """Is J an instance the workload could have generated for this schema?  Used on REPLAYED / SHRUNK specs: when
+    delta debugging shrinks the document under explicit arguments, a call whose arguments no longer fit the shrunk
+    schema says nothing about the generator and is skipped."""
+    if schema is None or depth > 12:
+        return True
+    s = resolve(schema, doc)
+    k = classify(schema, doc)
+    if J is None:
+        return True
+    if k == "model":
+        if not isinstance(J, dict):
+            return False
+        props, req, addl = model_properties(schema, doc)
+        if not req <= set(J):
+            return False
+        for name, v in J.items():
+            if name in props:
+                if not conforms(props[name], v, doc, depth + 1):
+                    return False
+            elif addl is False:
+                return False
+            elif isinstance(addl, dict) and addl and not conforms(addl, v, doc, depth + 1):
+                return False
+        return True
+    if k == "array":
+        ch = list(s.get("prefixItems") or []) + ([s["items"]] if s.get("items") else [])
+        return isinstance(J, list) and all(any(conforms(m, x, doc, depth + 1) for m in ch) for x in J) if ch else isinstance(J, list)
+    if k == "union":
+        return any(conforms(m, J, doc, depth + 1) for m in union_members(s))
+    if k in ("date", "date-time", "uuid"):
+        return isinstance(J, str) and not fails_robustly(schema, J, doc)
+    if k == "string":
+        return isinstance(J, str)
+    if k == "integer":
+        return isinstance(J, int) and not isinstance(J, bool)
+    if k == "number":
+        return isinstance(J, (int, float)) and not isinstance(J, bool)
+    if k == "boolean":
+        return isinstance(J, bool)
+    if k == "enum":
+        return J in s.get("enum", [])
+    if k == "const":
+        return J == s.get("const")
+    if k == "binary":
+        return isinstance(J, dict) and "__bytes__" in J
+    return True
+
+
 # ---------------------------------------------------------------------- instance generation
 class Unsatisfiable(Exception):
     """No finite instance within the depth bound (e.g. mutually required models)."""
